@@ -55,6 +55,7 @@ type parentState struct {
 	trips     int64
 	precise   int64
 	trivial   int64
+	sweep     int64
 	lpSamples int
 	cases     int64
 	skipped   int64
@@ -123,6 +124,9 @@ func (ps *parentState) merge(r *result, fam string) {
 	}
 	if f, ok := r.Extra["trivial"].(float64); ok {
 		ps.trivial += int64(f)
+	}
+	if f, ok := r.Extra["sweep"].(float64); ok {
+		ps.sweep += int64(f)
 	}
 	if fc := ps.perFamily[fam]; fc != nil {
 		fc.Done += r.Cases
@@ -373,6 +377,8 @@ func parent() {
 		"distinct_nontrivial":       nontrivial,
 		"rule":                      "cases are (entry point, input) pairs enumerated by odometers (no repeats inside a family); an evaluation is trivial when the decoder stops with end-of-input before it has read one TLV header. Distinctness of the hundreds of millions of non-trivial cases is not stored, so distinct_nontrivial is the conservative, measured number of distinct (entry point, outcome signature) pairs observed among them (outcome signature = ok / error type with the TLV type number it names / panic / for the link service dropped|dispatched|stored per fragment kind); nontrivial_evaluations is the raw count",
 		"nontrivial_evaluations":    ps.evals - ps.trivial,
+		"accessor_calls":            ps.sweep,
+		"accessors_swept":           d.Accessors,
 		"samples":                   ps.samples.List(),
 		"exhaustive":                exhaustive,
 		"generated_parsers":         len(models),
